@@ -10,7 +10,7 @@ META = dict(
     runner_name='Hyper',
     model_targets=['Model/Geno.vo', 'Model/GenoRun.vo', 'Model/Hyper.vo', 'Model/HyperRun.vo'],
     instance_obligations=['generated_agree (Proofs/HyperGenInstance.v: Float._decode / Float.encode / try_encode / the index test of Choices._decode / the constraint checks of Choices.encode as regenerated '
-                          'into Gen/HyperDefs.v from the current source equal what Model/Hyper.v computes; the translator also pins the AST of the 15 functions the model was transcribed from)'],
+                          'into Gen/HyperDefs.v from the current source equal what Model/Hyper.v computes; the translator also pins the AST of the 19 functions the model was transcribed from)'],
     technique=('Coq proofs over an executable model of pyglove.core.hyper object templates (scan for placeholders under a `where` filter, decode on structured '
                'decisions and on concrete DNA trees, encode by structural merge + first matching candidate) built on the Geno model of C11 '
                '+ differential correspondence against the library on a systematic placeholder x context x filter sweep and on random nested templates '
@@ -39,7 +39,7 @@ META['level_text'] = (
     'a value decoded from a placeholder tree bound to a value spec is accepted by that spec (fragment, on C04\'s Typing model). Tie: the model is run against the library on a systematic placeholder x context x filter sweep, on '
     'random nested templates (every DNA of spaces up to 200, 50 random beyond), on corrupted DNA trees and perturbed values; the direct oracle evaluates the property text on the real objects.')
 META['level_note'] = (
-    'Tie: a fail-closed translator regenerates Float._decode / Float.encode, the exception classes try_encode swallows, the index test of Choices._decode and the constraint checks of Choices.encode from the current source on every run (proved equal to the model: generated_agree) and pins the AST of the 15 functions the model was transcribed from. Partial: "never modify the template" and "decoding twice gives equal values" are definitionally true of a pure Gallina function and are NOT claimed as theorems; they are decided by the '
+    'Tie: a fail-closed translator regenerates Float._decode / Float.encode, the exception classes try_encode swallows, the index test of Choices._decode and the constraint checks of Choices.encode from the current source on every run (proved equal to the model: generated_agree) and pins the AST of the 19 functions the model was transcribed from. Partial: "never modify the template" and "decoding twice gives equal values" are definitionally true of a pure Gallina function and are NOT claimed as theorems; they are decided by the '
     'oracle only (pg.to_json and a structural snapshot of the template before/after every decode / encode / iter / materialize; two decodes compared with pg.eq; decoded values share no node with the template). '
     'Runtime aliasing is not expressible in the model. Trusted: Coq kernel; extraction cross-checked with vm_compute; the harness. Modelled, not verified: the Python code itself (tied by the correspondence); '
     'user code of CustomHyper subclasses is a Section variable with stated hypotheses. Statements only partly proved are named *_partial in coq/Properties/C13.v and listed in design/C13.md.')
@@ -57,12 +57,31 @@ CLASSES = [('HA', ['x', 'y']), ('HB', ['p']), ('HC', ['u', 'v', 'w']), ('HD', []
            ('HE', ['x', 'y']), ('HF', ['x', 'y']), ('HG', ['x', 'y', 'z']), ('HH', ['x', 'y'])]
 TYPED = (4, 5)
 FAMILY = (6, 7, 8, 9)
+# the bound grid of binding-time validation: one class per value spec; fields: the spec itself, a List of it, a Dict with one field of it
+FGRID = [(mn, mx) for mn in (None, -1.0, 0.0, 0, 1.0) for mx in (None, 0.0, 0, 2.0)
+         if (mn is None or mx is None or mn <= mx) and not (type(mn) is int and type(mx) is int) and not (type(mn) is int and mx == 0.0) and not (type(mx) is int and mn == 0.0)]
+IGRID = [(mn, mx) for mn in (None, -1, 0, 1) for mx in (None, 0, 2) if mn is None or mx is None or mn <= mx]
+SGRID = [(mn, mx) for mn in (0, 1, 2) for mx in (None, 0, 2, 3) if mx is None or mn <= mx]        # List size bounds
+GRID_BASE = len(CLASSES)
+CLASSES += [('GF%d' % i, ['v', 'l', 'd']) for i in range(len(FGRID))] + [('GI%d' % i, ['v', 'l', 'd']) for i in range(len(IGRID))] + \
+           [('GS%d' % i, ['l']) for i in range(len(SGRID))]
+GRID = tuple(range(GRID_BASE, len(CLASSES)))
+TYPED = TYPED + GRID
 PARENT = {7: 6, 8: 6, 9: 7}
 UNTYPED = (0, 1, 2, 3, 6, 7, 8, 9)
 def field_specs(pg):
   T = pg.typing
-  return {'TI': dict(i=T.Int(min_value=0, max_value=9), s=T.Str(), f=T.Float(min_value=0.0, max_value=4.0), e=T.Enum(1, [1, 2, 3])),
-          'TL': dict(l=T.List(T.Int(), min_size=2, max_size=3), d=T.Dict([('k', T.Int())]))}
+  out = {'TI': dict(i=T.Int(min_value=0, max_value=9), s=T.Str(), f=T.Float(min_value=0.0, max_value=4.0), e=T.Enum(1, [1, 2, 3])),
+         'TL': dict(l=T.List(T.Int(), min_size=2, max_size=3), d=T.Dict([('k', T.Int())]))}
+  for i, (mn, mx) in enumerate(FGRID):
+    mk = lambda: T.Float(min_value=mn, max_value=mx)
+    out['GF%d' % i] = dict(v=mk(), l=T.List(mk()), d=T.Dict([('k', mk())]))
+  for i, (mn, mx) in enumerate(IGRID):
+    mk = lambda: T.Int(min_value=mn, max_value=mx)
+    out['GI%d' % i] = dict(v=mk(), l=T.List(mk()), d=T.Dict([('k', mk())]))
+  for i, (mn, mx) in enumerate(SGRID):
+    out['GS%d' % i] = dict(l=T.List(T.Int(), min_size=mn, max_size=mx))
+  return out
 _PY = {}
 
 def py():
@@ -552,6 +571,46 @@ def typed_sweep():
   ]
   return out
 
+def grid_sweep():
+  """(label, template, refuse_expected): binding-time validation of every placeholder kind against value specs over the bound grid
+  {None, negative, 0, 0.0, positive} x {min, max} x placeholder range below / crossing / touching / inside / above x position
+  (field, oneof candidate, manyof candidate in a List field, typed Dict field, typed List element).  Refusal is expected exactly
+  when the placeholder can produce a value outside the spec."""
+  out = []
+  one = lambda cs: ['1', cs, None, None]
+  def positions(ci, h, other):
+    dflt = {'v': other, 'l': ['l', []], 'd': ['D', [['k', other]]]}
+    obj = lambda **kw: ['O', ci, [[f, kw.get(f, dflt[f])] for f in ('v', 'l', 'd')]]
+    return [('field', obj(v=h)), ('oneof-candidate', obj(v=one([other, h]))), ('manyof-candidate', obj(l=['M', 2, [h, other], False, False, None, None])),
+            ('dict-field', obj(d=['D', [['k', h]]])), ('list-element', obj(l=['l', [other, h]]))]
+  for i, (mn, mx) in enumerate(FGRID):
+    a = -3.0 if mn is None else float(mn); b = 3.0 if mx is None else float(mx)
+    inside = (a + b) / 2 if mn is not None or mx is not None else 0.5
+    inside = min(max(inside, a), b)
+    ranges = [('below-min', a - 2.0, a - 1.0), ('crossing-min', a - 1.0, min(a + 0.5, b)), ('touching-min', a, min(a + 0.5, b)), ('inside', max(a, inside - 0.25), min(b, inside + 0.25)),
+              ('touching-max', max(b - 0.5, a), b), ('crossing-max', max(b - 0.5, a), b + 1.0), ('above-max', b + 1.0, b + 2.0), ('the-whole-range', a, b)]
+    for rl, lo, hi in ranges:
+      bad = (mn is not None and lo < mn) or (mx is not None and hi > mx)
+      for pl, t in positions(GRID_BASE + i, ['F', lo, hi, None, None], L_(inside)):
+        out.append(('Float(min=%r,max=%r)/floatv-%s/%s' % (mn, mx, rl, pl), t, bad))
+  for i, (mn, mx) in enumerate(IGRID):
+    a = -3 if mn is None else mn; b = 3 if mx is None else mx
+    inside = min(max((a + b) // 2, a), b)
+    sets = [('below-min', [a - 1, inside]), ('touching-min', [a, inside]), ('inside', [inside]), ('touching-max', [inside, b]), ('above-max', [inside, b + 1]), ('both-ends', [a, b])]
+    for sl, vals in sets:
+      vals = sorted(set(vals))
+      bad = any((mn is not None and x < mn) or (mx is not None and x > mx) for x in vals)
+      h = one([L_(x) for x in vals]) if len(vals) > 1 else one([L_(vals[0]), one([L_(vals[0])])])
+      for pl, t in positions(GRID_BASE + len(FGRID) + i, h, L_(inside)):
+        out.append(('Int(min=%r,max=%r)/oneof-%s/%s' % (mn, mx, sl, pl), t, bad))
+  for i, (mn, mx) in enumerate(SGRID):
+    ci = GRID_BASE + len(FGRID) + len(IGRID) + i
+    for k in (1, 2, 3, 4):
+      for dist, srt in ((True, False), (False, True)):
+        bad = k < mn or (mx is not None and k > mx)
+        out.append(('List(min_size=%r,max_size=%r)/manyof-k%d%s' % (mn, mx, k, 'D' if dist else 'S'), ['O', ci, [['l', ['M', k, [L_(1), L_(2), L_(3), L_(4)], dist, srt, None, None]]]], bad))
+  return out
+
 def random_typed(rng):
   """A random template around the typed classes; conforming placeholders only, except manyof sizes (1..4 against [2, 3])."""
   one = lambda cs: ['1', cs, None, rng.choice([None, 1, 2])]
@@ -771,6 +830,15 @@ def perturbations(rng, vd, limit):
   if len(out) > limit: out = rng.sample(out, limit)
   return out
 
+def ends_sdna(s, sd, pick):
+  """sd with every float decision replaced by the lower (pick=1) or upper (pick=2) end of its range."""
+  out = []
+  for p, x in zip(s[1], sd):
+    if p[0] == 'F': out.append(('f', p[pick]))
+    elif p[0] == 'C': out.append(('c', [(c, ends_sdna(p[2][c], sub, pick)) for c, sub in x[1]]))
+    else: out.append(x)
+  return out
+
 def process_template(job):
   import random as pyrandom
   ti, label, t, w, seed, qtr, P = job
@@ -789,7 +857,13 @@ def process_template(job):
     rec.hist('skipped_for_time_budget', 'template:' + origin); return rec
   rec.hist('template_origin', origin); rec.hist('template_placeholder_kinds', kk); rec.hist('template_feature', feat)
   rec.hist('where_kind', w[0] if w[0] != 'not' else 'not-' + w[1][0])
-  if label.endswith('?'):           # typed template that is non-conforming on purpose: the library may refuse to bind the placeholder
+  if label.endswith('!'):           # the placeholder can produce a value outside the value spec it is bound to: binding must refuse it
+    okb, hv = attempt(lambda: to_pg(t))
+    if not okb:
+      rec.hist('binding_refused', 'grid: refused as expected'); return rec
+    rec.hit('C13/binding/accepted-out-of-range/%s' % label.split(':')[1].split('/')[0].split('(')[0],
+            'the placeholder in %s can produce a value its field\'s value spec rejects (%s), yet binding it was accepted' % (td, label), dict(case0, op='construct'))
+  elif label.endswith('?'):         # typed template that is non-conforming on purpose: the library may refuse to bind the placeholder
     okb, hv = attempt(lambda: to_pg(t))
     if not okb:
       rec.hist('binding_refused', '%s: %s' % (label.split(':')[1][:40] if origin == 'typed' else origin, type(hv).__name__)); return rec
@@ -841,12 +915,18 @@ def process_template(job):
     sds = G.all_valid(s)
   else:
     sds, seen = [], set()
-    for _ in range(P['nrand'] * 3):
+    nrand = P['nrand'] if origin != 'grid' else 6
+    for _ in range(nrand * 3):
       sd = G.random_sdna(rng, s)
       key = repr(sd)
       if key not in seen:
         seen.add(key); sds.append(sd)
-      if len(sds) >= P['nrand']: break
+      if len(sds) >= nrand: break
+  # the ends of every float range (valid DNAs at the boundary of the specification)
+  if not fin and sds:
+    for pick in (1, 2):
+      sd = ends_sdna(s, sds[0], pick)
+      if repr(sd) not in {repr(x) for x in sds}: sds.append(sd)
   hv_nodes = sym_nodes(hv, {})
   decoded = []
   cwork = set(rng.sample(range(len(sds)), min(P['ncwork'], len(sds))))
@@ -1122,6 +1202,16 @@ def run(ctx):
   for l, t, mr in tsweep:
     for w in (['none'], ['kind', 1, 0, 1, 1]):
       templates.append(('typed:%s%s' % (l, '?' if mr else ''), t, w))
+  grid = grid_sweep()
+  ctx.extra['bound_grid_sweep'] = dict(what='binding-time validation over the bound grid: Float / Int specs with min, max in {None, negative, 0, 0.0, positive}, List size bounds; floatv ranges / oneof value sets below, crossing, '
+                                            'touching, inside, above each bound; positions: field, oneof candidate, manyof candidate in a List field, typed Dict field, typed List element; refusal expected exactly when the placeholder can leave the spec',
+                                       templates=len(grid))
+  if not ctx.thorough and not os.environ.get('C13_ALLGRID'):      # always: every spec with a bound equal to zero, placeholder directly in the field; plus a seeded sample of the rest
+    zero = [g for g in grid if ('=0,' in g[0] or '=0)' in g[0] or '=0.0' in g[0]) and g[0].endswith('/field')]
+    rest = [g for g in grid if g not in zero]
+    grid = zero + [rest[i] for i in sorted(rng.sample(range(len(rest)), 90))]
+  ctx.extra['bound_grid_sweep']['run_in_this_tier'] = len(grid)
+  templates += [('grid:%s%s' % (l, '!' if bad else ''), t, ['none']) for l, t, bad in grid]
   for i in range(ctx.scale(60, 1500)):
     t, mr = random_typed(rng)
     templates.append(('typed-random:%d%s' % (i, '?' if mr else ''), t, random_where(rng, t) if rng.random() < 0.4 else ['none']))
